@@ -406,6 +406,20 @@ func Structured(thorough bool) []Lazy {
 			}
 		}
 	}
+	// index spellings which the RFC 6902 library reads as the same array element ("00", "+0", "-0" are index 0): targets
+	// that lie inside their own source without being a textual child of it; "/o/..." are the same spellings as object members
+	for _, k := range []string{"copy", "move"} {
+		for _, c := range []string{"m", "o"} {
+			for _, idx := range []string{"0", "00", "+0", "-0", "000", "1", "01", "+1", "-1"} {
+				for _, tail := range []string{"x", "n", "0", "-", "n/0"} {
+					for _, f := range []string{"0", "1", "00"} {
+						single = append(single, fmt.Sprintf(`{"op":%q,"path":%q,"from":%q}`, k, "/"+c+"/"+idx+"/"+tail, "/"+c+"/"+f))
+					}
+					single = append(single, fmt.Sprintf(`{"op":%q,"path":%q,"from":%q}`, k, "/"+c+"/"+idx+"/n/"+tail, "/"+c+"/0/n"))
+				}
+			}
+		}
+	}
 	for i, s := range single {
 		add("jsonpatch", fmt.Sprintf("jsonpatch/1/%d", i), []byte("["+s+"]"))
 	}
